@@ -31,29 +31,31 @@ Theorem C14_rejected_not_dispatched : forall secure c a code,
   In (EReject code) (effs_of (read_conn secure c a)) ->
   ~ In EDispatch (effs_of (read_conn secure c a))
   /\ In code [301; 400; 500; 505]
-  /\ exists v, okver v /\ effs_of (read_conn secure c a) = [EReject code; EWrite code v true; EClose].
+  /\ exists v hd, okver v /\ effs_of (read_conn secure c a) = [EReject code; EWrite code v true hd; EClose].
 Proof. exact rejected_not_dispatched. Qed.
 Print Assumptions C14_rejected_not_dispatched.
 
 (* a response that says close is directly followed by the close, and nothing else *)
-Theorem C14_close_when_said : forall secure c a st v,
-  In (EWrite st v true) (effs_of (read_conn secure c a)) ->
-  exists pre, effs_of (read_conn secure c a) = pre ++ [EWrite st v true; EClose].
+Theorem C14_close_when_said : forall secure c a st v hd,
+  In (EWrite st v true hd) (effs_of (read_conn secure c a)) ->
+  exists pre, effs_of (read_conn secure c a) = pre ++ [EWrite st v true hd; EClose].
 Proof. exact close_when_said. Qed.
 Print Assumptions C14_close_when_said.
 
 (* the status line never carries a version other than HTTP/1.0 or HTTP/1.1, whatever the request said *)
-Theorem C14_version_spoken : forall secure c a st v cl,
-  In (EWrite st v cl) (effs_of (read_conn secure c a)) -> v = (1, 0) \/ v = (1, 1).
+Theorem C14_version_spoken : forall secure c a st v cl hd,
+  In (EWrite st v cl hd) (effs_of (read_conn secure c a)) -> v = (1, 0) \/ v = (1, 1).
 Proof. exact version_spoken. Qed.
 Print Assumptions C14_version_spoken.
 
-(* a parser error before the end of the headers: 400, close, and both tables empty for the socket *)
-Theorem C14_parser_error_reported : forall secure c a f e v,
+(* a parser error before the end of the headers: 400, close, and both tables empty for the socket -- also
+   when the rejected message is a HEAD request, whose throw-away Request was never put into _clients *)
+Theorem C14_parser_error_reported : forall secure c a f e v hd,
   buf c = true \/ a_ssl a = Ret false ->
-  a_exec a = Ret f -> hc f = false -> perrno f = Some e -> a_errreq a = Ret v ->
+  a_exec a = Ret f -> hc f = false -> perrno f = Some e -> a_errreq a = Ret (v, hd) ->
   effs_of (read_conn secure c a)
-  = [EReject 400; EWrite 400 (resp_version (match e with BadFirstLine => (1, 1) | _ => v end)) true; EClose]
+  = [EReject 400; EWrite 400 (resp_version (match e with BadFirstLine => (1, 1) | _ => v end)) true
+                         (match e with BadFirstLine => false | _ => hd end); EClose]
   /\ conn_of (read_conn secure c a) = empty_conn.
 Proof. exact parser_error_reported. Qed.
 Print Assumptions C14_parser_error_reported.
@@ -63,7 +65,7 @@ Print Assumptions C14_parser_error_reported.
 Theorem C14_raise_answered : forall secure c a,
   hres_of (on_read secure c a) = HRaise ->
   effs_of (read_conn secure c a)
-  = match a_excreq a with Raise => [] | Ret _ => [EReject 500; EWrite 500 (1, 1) true; EClose] end.
+  = match a_excreq a with Raise => [] | Ret _ => [EReject 500; EWrite 500 (1, 1) true false; EClose] end.
 Proof. exact raise_answered. Qed.
 Print Assumptions C14_raise_answered.
 
@@ -106,8 +108,8 @@ Definition A0 : answers :=
 Definition with_exec (a : answers) (x : res pflags) : answers :=
   {| a_ssl := a_ssl a; a_exec := x; a_errreq := a_errreq a; a_req := a_req a; a_clen := a_clen a;
      a_path := a_path a; a_excreq := a_excreq a; a_app := a_app a |}.
-Definition R11 : reqinfo := {| rver := (1, 1); has_host := true; te_chunked := false; keepalive := true |}.
-Definition R20 : reqinfo := {| rver := (2, 0); has_host := true; te_chunked := false; keepalive := true |}.
+Definition R11 : reqinfo := {| rver := (1, 1); is_head := false; has_host := true; te_chunked := false; keepalive := true |}.
+Definition R20 : reqinfo := {| rver := (2, 0); is_head := true; has_host := true; te_chunked := false; keepalive := true |}.
 Definition Agood (ri : reqinfo) (n : Z) : answers :=
   {| a_ssl := Ret false; a_exec := Ret {| hc := true; perrno := None; mc := true |}; a_errreq := Raise;
      a_req := Ret ri; a_clen := Ret n; a_path := Ret PCanon; a_excreq := Ret tt; a_app := 200 |}.
@@ -115,24 +117,25 @@ Definition Agood (ri : reqinfo) (n : Z) : answers :=
 (* unicode_escape of the request line raises: 500, close; the parser stays until the disconnect *)
 Example C14_ex_raise :
   read_conn false empty_conn A0
-  = ({| buf := true; cli := None |}, [EReject 500; EWrite 500 (1, 1) true; EClose], [TSsl; TExec; TExcReq]).
+  = ({| buf := true; cli := None |}, [EReject 500; EWrite 500 (1, 1) true false; EClose], [TSsl; TExec; TExcReq]).
 Proof. vm_compute. reflexivity. Qed.
-(* invalid header on an HTTP/9.9 request: 400 with an HTTP/1.1 status line *)
+(* invalid header on an HTTP/9.9 HEAD request (pair never registered): one 400 with an HTTP/1.1 status line,
+   head only, close; nothing left *)
 Example C14_ex_invalid_header :
   effs_of (read_conn false empty_conn
      {| a_ssl := Ret false; a_exec := Ret {| hc := false; perrno := Some InvalidHeader; mc := false |};
-        a_errreq := Ret (9, 9); a_req := Raise; a_clen := Raise; a_path := Raise; a_excreq := Raise; a_app := 0 |})
-  = [EReject 400; EWrite 400 (1, 1) true; EClose].
+        a_errreq := Ret ((9, 9), true); a_req := Raise; a_clen := Raise; a_path := Raise; a_excreq := Raise; a_app := 0 |})
+  = [EReject 400; EWrite 400 (1, 1) true true; EClose].
 Proof. vm_compute. reflexivity. Qed.
 Example C14_ex_505 :
-  effs_of (read_conn false empty_conn (Agood R20 0)) = [EReject 505; EWrite 505 (1, 1) true; EClose].
+  effs_of (read_conn false empty_conn (Agood R20 0)) = [EReject 505; EWrite 505 (1, 1) true true; EClose].
 Proof. vm_compute. reflexivity. Qed.
 Example C14_ex_negative_length :
-  effs_of (read_conn false empty_conn (Agood R11 (-5))) = [EReject 400; EWrite 400 (1, 1) true; EClose].
+  effs_of (read_conn false empty_conn (Agood R11 (-5))) = [EReject 400; EWrite 400 (1, 1) true false; EClose].
 Proof. vm_compute. reflexivity. Qed.
 Example C14_ex_request :
   read_conn false empty_conn (Agood R11 0)
-  = (empty_conn, [EDispatch; EWrite 200 (1, 1) false], [TSsl; TExec; TReq; TInt]).
+  = (empty_conn, [EDispatch; EWrite 200 (1, 1) false false], [TSsl; TExec; TReq; TInt]).
 Proof. vm_compute. reflexivity. Qed.
 Example C14_ex_tls_hello :
   read_conn false empty_conn (with_exec {| a_ssl := Ret true; a_exec := Raise; a_errreq := Raise; a_req := Raise;
